@@ -217,7 +217,9 @@ func init() {
 			if r.Chance(1, 5) {
 				k = int64(int32(r.U64()))
 			}
-			switch r.Intn(14) {
+			switch r.Intn(15) {
+			case 14:
+				return []string{"json " + a.String()}
 			case 0, 1, 2:
 				return []string{"parse " + Hex([]byte(genDecimalString(r)))}
 			case 3:
@@ -279,6 +281,20 @@ func execAmount(_ *State, line string) Result {
 				res.PropKey, res.PropDesc = "C33:print-parse", fmt.Sprintf("NewIntegerFromString(String(%s)) differs", n)
 			}
 			return "ok " + Hex([]byte(s))
+		case "json":
+			n := parseBig(t[1])
+			b, err := integerFromBig(n).MarshalJSON()
+			if err != nil {
+				return "error"
+			}
+			var y common.Integer
+			if err := y.UnmarshalJSON(b); err != nil {
+				return "error"
+			}
+			if integerToBig(y).Cmp(n) != 0 {
+				res.PropKey, res.PropDesc = "C33:print-parse", fmt.Sprintf("JSON round trip of %s gives %s", n, integerToBig(y))
+			}
+			return "ok " + Hex(b) + " " + integerToBig(y).String()
 		case "ofuint":
 			var u uint64
 			fmt.Sscan(t[1], &u)
